@@ -141,7 +141,10 @@ def check(report, tier, only=None):
     # of two connections survives (a shortcut that drops a finished dial because "we are already connected" makes the two sides keep different ones)
     for f in (ob_compose, ob_late_exit, C04.ob_add, lambda rep: handler.ob_add_peer(rep, 'C05'), lambda rep: handler.ob_handler_tail(rep, 'C05'), _C03.ob_connecting_result,
               # nothing in front of the tie-break decides which connection survives (wrapper = lock + delegation); the handle RPCs go through is the listed (surviving) connection
-              C04.ob_wrappers, __import__('props.C09', fromlist=['x']).ob_disconnect):
+              C04.ob_wrappers, __import__('props.C09', fromlist=['x']).ob_disconnect,
+              # an inbound connection is refused for the admission rule alone: a refusal "because we are dialing that peer ourselves" makes both sides of a
+              # simultaneous dial refuse each other
+              __import__('props.C10', fromlist=['x']).ob_admission, __import__('props.C10', fromlist=['x']).ob_incoming_always_admission):
         if only and not any(s in getattr(f, '__name__', 'handler') for s in only):
             continue
         f(report)
